@@ -64,8 +64,8 @@ type Budget struct {
 	Compacts    int    `json:"compacts"`
 	ConfChanges int    `json:"conf_changes"`
 	Transfers   int    `json:"transfers"`
-	Expires     int    `json:"lease_expiries"` // pass 2 only
-	Delays      int    `json:"delays"`         // messages (or duplicates) parked outside the FIFO pool
+	Expires     int    `json:"lease_expiries"`    // pass 2 only
+	Delays      int    `json:"delays"`            // messages (or duplicates) parked outside the FIFO pool
 	Lags        int    `json:"lags,omitempty"`    // lag(n): the application of n starts applying asynchronously
 	Applies     int    `json:"applies,omitempty"` // apply(n): one held page of committed entries applied + Advance
 }
@@ -933,7 +933,12 @@ var flagNames = [...]string{"two_live_leaders_in_different_terms", "conflict_tru
 	"conf_changes_applied", "joint_configurations", "leader_step_downs", "stale_term_deliveries", "restarts_with_log", "leaders_elected", "commit_advances", "learner_configurations",
 	"vote_rejections", "pre_votes", "check_quorum_step_downs", "timeout_now_sent",
 	"compactions", "compactions_on_non_leaders", "some_storage_compacted", "msgsnap_deliveries", "stale_msgsnap_deliveries_index_at_or_below_receiver_commit",
-	"stale_msgsnap_handled_after_receiver_compacted_beyond_it", "restarts_from_compacted_storage", "delayed_messages_released"}
+	"stale_msgsnap_handled_after_receiver_compacted_beyond_it", "restarts_from_compacted_storage", "delayed_messages_released",
+	"inputs_to_a_node_holding_a_ready", "campaigns_with_committed_conf_changes_unapplied", "campaigns_refused_because_of_unapplied_conf_changes",
+	"held_pages_applied", "crashes_while_a_ready_was_held"}
+
+// compile-time check: one name per flag
+var _ = [1]struct{}{}[len(flagNames)-fFlags]
 
 type violation struct {
 	Kind   string
